@@ -236,9 +236,18 @@ def ob_total_items(ctx, res):
             res.fail("totalItems/%s/order" % impl, incs[0], "count must be taken before any early return of the per-entry processing")
             continue
         de = ctx.ast.fn(BW, "destroy", impl=impl)
+        dv = _destroy_eval(ctx, de, impl)
+        if dv is not None:
+            if dv[0] == "bad":
+                res.fail("totalItems/%s/destroy" % impl, de, "destroy must store the counted entries into the returned summary: " + dv[1])
+            else:
+                res.ok(incs[0], "%s: total_items += 1 once per entry, unconditionally; destroy evaluated with and without a coverage summary: the count reaches the "
+                                "chromosome summary in both cases, the other statistics unchanged" % impl)
+            continue
         asg = [n for n in walk_no_nested_fn(de.body) if n.k == "assign" and up(strip(n["l"])).endswith(".total_items") and up(strip(n["r"])) == "total_items"]
         # `Summary { total_items, ..rest }` (struct update) stores the count as well
-        upd = [n for n in walk_no_nested_fn(de.body) if n.k == "struct" and n["path"].split("::")[-1] == "Summary" and n.get("rest") is not None
+        from ..astq import cond_ancestors as _ca
+        upd = [n for n in walk_no_nested_fn(de.body) if n.k == "struct" and n["path"].split("::")[-1] == "Summary" and n.get("rest") is not None and not _ca(n)
                and [x for x in n["fields"] if x["name"] == "total_items" and up(strip(x["e"])) in ("total_items", "self.total_items")]]
         if len(asg) + len(upd) != 1:
             if not asg and not upd and ".total_items" not in up(de.body) and "total_items" in up(de.body):
@@ -247,6 +256,59 @@ def ob_total_items(ctx, res):
                 res.fail("totalItems/%s/destroy" % impl, de, "destroy must store the counted entries into the returned summary")
             continue
         res.ok(incs[0], "%s: total_items += 1 once per entry, unconditionally, stored into the chromosome summary" % impl)
+
+
+def _destroy_eval(ctx, de, impl):
+    """destroy(self) run on a processor record holding 7 counted entries, with no coverage summary (only zero-length entries) and with one:
+    None (not evaluable) | ("ok",) | ("bad", message)"""
+    from ..rules.interp import Interp, NotPure, _Return
+
+    def find(v):
+        if isinstance(v, dict):
+            if "total_items" in v and "bases_covered" in v:
+                return v
+            for x in v.values():
+                r = find(x)
+                if r is not None:
+                    return r
+        if isinstance(v, (tuple, list)):
+            for x in v:
+                r = find(x)
+                if r is not None:
+                    return r
+        return None
+    for summ in (None, {"__type": "Summary", "total_items": 0, "bases_covered": 5, "min_val": 1.0, "max_val": 2.0, "sum": 7.0, "sum_squares": 11.0}):
+        box = []
+
+        def method(m, recv, args, box=box):
+            if m in ("into_iter", "iter", "collect", "iter_mut") and isinstance(recv, list) and not args:
+                return recv
+            if m == "map" and isinstance(recv, list) and len(args) == 1:
+                return [box[0].apply_closure(args[0], [x]) for x in recv]
+            if m == "is_empty" and isinstance(recv, list) and not args:
+                return not recv
+            raise NotPure("method " + m)
+        it = Interp(ctx.ast, BW, extern={"None": None, "method": method, "floats": True, "call": lambda p_, a: ("variant", p_, a) if p_[:1].isupper() else NotImplemented})
+        box.append(it)
+        selfv = {"__type": impl, "summary": None if summ is None else ("some", dict(summ)), "total_items": 7, "items": [], "zoom_counts": [], "overlap": [],
+                 "state_val": {"items": [], "zoom_items": [], "overlap": []}, "zooms": [], "zoom_items": []}
+        try:
+            r = it.call(de, [selfv])
+        except (NotPure, _Return):
+            return None
+        except Exception:
+            return None
+        got = find(r)
+        if got is None:
+            return None
+        if got.get("total_items") != 7:
+            return ("bad", "with 7 entries counted and %s the returned summary has total_items = %s (a chromosome made of zero-length entries only has no coverage summary; "
+                           "its entries still count)" % ("no coverage summary" if summ is None else "a coverage summary", got.get("total_items")))
+        for k_ in ("bases_covered", "min_val", "max_val", "sum", "sum_squares"):
+            w_ = 0 if summ is None else summ[k_]
+            if got.get(k_) != w_:
+                return ("bad", "the returned summary has %s = %s, the sweep's summary had %s" % (k_, got.get(k_), w_))
+    return ("ok",)
 
 
 class _MergeIdiom(Exception):
